@@ -193,6 +193,10 @@ package iavl
 //@   ensures [nilonerr] err != nil ==> newSelf == nil
 //@   ensures [fresh] err == nil ==> newSelf != nil && fresh(newSelf) && !inptr[newSelf] && valid(newSelf) && newSelf.nodeKey == nil
 //@   ensures [updated] err == nil ==> updated == has(old(view(node)), ord(key))
+//@   lemma [leftins] err == nil && isInner(old(view(node))) && ord(key) < c_ord(i_key(old(view(node)))) && !updated ==> view(newSelf) == bal(mk(i_key(old(view(node))), ins(i_left(old(view(node))), cntOf(key), cntOf(value)), i_right(old(view(node)))))
+//@   lemma [rightins] err == nil && isInner(old(view(node))) && ord(key) >= c_ord(i_key(old(view(node)))) && !updated ==> view(newSelf) == bal(mk(i_key(old(view(node))), i_left(old(view(node))), ins(i_right(old(view(node))), cntOf(key), cntOf(value))))
+//@   lemma [leftupd] err == nil && isInner(old(view(node))) && ord(key) < c_ord(i_key(old(view(node)))) && updated ==> view(newSelf) == setLeft(unver(old(view(node))), ins(i_left(old(view(node))), cntOf(key), cntOf(value)))
+//@   lemma [rightupd] err == nil && isInner(old(view(node))) && ord(key) >= c_ord(i_key(old(view(node)))) && updated ==> view(newSelf) == setRight(unver(old(view(node))), ins(i_right(old(view(node))), cntOf(key), cntOf(value)))
 //@   ensures [shape] err == nil ==> view(newSelf) == ins(old(view(node)), cntOf(key), cntOf(value))
 //@   ensures [bounds] err == nil ==> hgt(view(newSelf)) <= hgt(old(view(node))) + 1 && siz(view(newSelf)) <= siz(old(view(node))) + 1
 //@   ensures [same] err == nil && updated ==> hgt(view(newSelf)) == hgt(old(view(node))) && siz(view(newSelf)) == siz(old(view(node)))
